@@ -378,6 +378,8 @@ WIRE_PLANS = {
     'C13': {'order': (1, 8)},
     # C19: over a real socket every receipt is answered and the submitter's connection goes on
     'C19': {'receipts': (2, 10)},
+    # C18: a measurement over a real socket, for every kind of client id a handshake can announce
+    'C18': {'latency': (3, 14)},
     # C07: a session, and its frame worker, ends with its last member however quickly that happens
     'C07': {'churn': (4, 40)},
     # C10: concurrent registration of the same component type names
